@@ -2,9 +2,9 @@
 # Developer tool: run the checks that own the touched functions on each semantics-preserving refactoring in benign/ (expected: exit 0,
 # no VIOLATION line; UNDECIDED lines are acceptable -- the refactored body may leave the generator's subset).
 cd "$(dirname "$0")/.."
-declare -A MAP=( [01]="C14" [02]="C14 C19" [03]="C14 C16" [04]="C04 C15" [05]="C01 C02" [06]="C03" [07]="C13 C10" [08]="C10 C11" [09]="C13" [10]="C05" [11]="C19" [12]="C20" [13]="C16" [14]="C18" )
+declare -A MAP=( [01]="C14" [02]="C14 C19" [03]="C14 C16" [04]="C04 C15" [05]="C01 C02" [06]="C03" [07]="C13 C10" [08]="C10 C11" [09]="C13" [10]="C05" [11]="C19" [12]="C20" [13]="C16" [14]="C18" [15]="C16" [16]="C16" [17]="C16" [18]="C13 C10" [19]="C13 C03" [20]="C14 C04" [21]="C18" [22]="C05" [23]="C05" [24]="C02 C01" )
 OUT=${1:-/dev/stdout}
-for k in $(ls benign | sed 's/.diff//'); do
+for k in $(ls benign | grep "^${ONLY:-[0-9][0-9]}.diff" | sed 's/.diff//'); do
   for p in ${MAP[$k]}; do
     r=$(LINES_MAX=400 ./bin/mutcheck "$PWD/benign/$k.diff" $p 2>&1)
     ex=$(echo "$r" | grep -o "exit=[0-9]*")
